@@ -358,7 +358,7 @@ fn token_vs_grid(op: Op, p: &Partial, grid: &[MVersion], cgrid: &[Version], st: 
 
 pub fn run(cfg: &RunCfg) -> PropRun {
     let mut run = PropRun::default();
-    run.rule = "range texts rendered from a generated AST (1..3 alternatives of hyphen ranges or 1..3 comparators: bare/=/</<=/>/>=/~/~>/^ x partials with 1..3 components from a small shared number pool incl. MAX_SAFE_INTEGER, trailing x-ranges, prerelease/build qualifiers, loose spellings: leading zeros, v prefix, blanks after the operator, hyphenless prerelease, garbage tokens) x ~40 boundary probes per comparator version (the version, its successor, the tuple's release/-0/tags, tags before/after, neighbouring patch/minor/major tuples as release/-0/tag, with build metadata) + random versions; plus the exhaustive single-token table (9 operators x 340 partial shapes over {0,1,2,x} x 5 qualifiers = 3060 tokens x 256-version grid). Oracle: npm's documented desugaring on the AST + node's testSet rule (golden-validated against node-semver 7.6.2). Non-trivial = the range discriminates (admits one probe and rejects another) or is unsatisfiable; distinct by rendered text.".into();
+    run.rule = "range texts rendered from a generated AST (1..3 alternatives of hyphen ranges or 1..3 comparators: bare/=/</<=/>/>=/~/~>/^ x partials with 1..3 components from a small shared number pool incl. MAX_SAFE_INTEGER, trailing x-ranges, prerelease/build qualifiers, loose spellings: leading zeros, v prefix, blanks after the operator, hyphenless prerelease, garbage tokens incl. comparators with a component above MAX_SAFE_INTEGER, empty alternatives) x ~40 boundary probes per comparator version (the version, its successor, the tuple's release/-0/tags, tags before/after, neighbouring patch/minor/major tuples as release/-0/tag, with build metadata) + random versions; plus the exhaustive single-token table (9 operators x 340 partial shapes over {0,1,2,x} x 5 qualifiers = 3060 tokens x 256-version grid). Oracle: npm's documented desugaring on the AST + node's testSet rule (golden-validated against node-semver 7.6.2). Non-trivial = the range discriminates (admits one probe and rejects another) or is unsatisfiable; distinct by rendered text.".into();
     run.assumptions = vec![
         "prerelease probes of 0.0.0 against sets containing >=0.0.0 are don't-care (README and node disagree)".into(),
         "constructs of open findings are excluded by construction and probed separately".into(),
